@@ -36,6 +36,15 @@
 
 namespace pgm::internal {
 
+#ifdef PGM_INDEX_VERIF
+namespace verif {
+/// Verification hook: called for every (x, y) handed to add_point inside make_segmentation.
+inline void (*on_add_point)(size_t chunk_start, long double x, size_t y) = nullptr;
+/// Verification hook: called once per level by PGMIndex::segment_for_key.
+inline void (*on_route)(int level, size_t window_lo, size_t first_touched, size_t last_touched) = nullptr;
+}
+#endif
+
 template<typename T>
 using LargeSigned = typename std::conditional_t<std::is_floating_point_v<T>,
                                                 long double,
@@ -278,6 +287,10 @@ size_t make_segmentation(size_t n, size_t start, size_t end, size_t epsilon, Fin
     size_t c = 0;
     OptimalPiecewiseLinearModel<K, size_t> opt(epsilon);
     auto add_point = [&](K x, size_t y) {
+#ifdef PGM_INDEX_VERIF
+        if (verif::on_add_point)
+            verif::on_add_point(start, (long double) x, y);
+#endif
         if (!opt.add_point(x, y)) {
             out(opt.get_segment());
             opt.add_point(x, y);
